@@ -14,8 +14,8 @@ for line in open(os.path.join(ROOT, "properties.jsonl")):
 CHECKS = {
     "C10": ("proof",
             "VCs generated from the AST of the real _p_norm (loop invariants with a recursively defined Sigma, per-segment NRA obligations) discharged by z3/cvc5; bounded run-time stand-in vs closed-form integral",
-            "For p in {1,2,3,4} (polynomial), for every integer p >= 1 and for every real p >= 1 (abstract power with its sign / recurrence / monotonicity axioms) every path of the real _p_norm body is proved to add exactly the integral of |y|^p over the segment and the two loops to accumulate the double sum, for all real end-points and all numbers of depths and breakpoints; the nearly-horizontal branch (expm1/log1p) is proved equal to the same integral given the instances of exp(c log u) = u^c (A7). Entry points: the exact and the grid class's p_norm delegate to it on their own critical pairs / (node, value) pairs (values_to_pairs proved: one pair per depth and node) and reject negative p; both sup norms are proved to bound every absolute value and to be attained. Norm laws (triangle, homogeneity) and sup-norm stability against the bottleneck distance are bounded stand-ins, run with a tolerance of 1e-9 relative to the integral.",
-            "floats as reals (A1); closed form = integral (calculus, numerically cross-checked); A7 exp/log/pow identities at the instantiated points; L11 sup of a piecewise-linear function attained at a breakpoint; VC generator + models + contracts trusted; z3/cvc5"),
+            "For p in {1,2,3,4} (polynomial), for every integer p >= 1 and for every real p >= 1 (abstract power with its sign / recurrence / monotonicity axioms) every path of the real _p_norm body is proved to add exactly the integral of |y|^p over the segment and the two loops to accumulate the double sum, for all real end-points and all numbers of depths and breakpoints; the nearly-horizontal branch (expm1/log1p) is proved equal to the same integral given the instances of exp(c log u) = u^c (A8). Entry points: the exact and the grid class's p_norm delegate to it on their own critical pairs / (node, value) pairs (values_to_pairs proved: one pair per depth and node) and reject negative p; both sup norms are proved to bound every absolute value and to be attained. Norm laws (triangle, homogeneity) and sup-norm stability against the bottleneck distance are bounded stand-ins, run with a tolerance of 1e-9 relative to the integral.",
+            "floats as reals (A1); closed form = integral (calculus, numerically cross-checked); A8 exp/log/pow identities at the instantiated points; L11 sup of a piecewise-linear function attained at a breakpoint; VC generator + models + contracts trusted; z3/cvc5"),
     "C14": ("proof",
             "VCs from the AST of evalHeatKernel/heat (nested-loop Sigma invariants, modular call contract) + spec lemmas on the summand, z3/cvc5; bounded run-time stand-in for the float-only effects",
             "The real evalHeatKernel is proved to return the normalised closed double sum for all diagram sizes and contents and heat to return sqrt(k(F,F)+k(G,G)-2k(F,G)); symmetry / diagonal / shift laws are proved on the summand. NaN-freedom, zero on reorderings, triangle inequality and Wasserstein stability are float or paper-level facts: bounded stand-in.",
